@@ -733,7 +733,7 @@ def monitor_direct(case, obs):
 
 class C05(Prop):
     id = "C05"
-    props_file = "Props/C05.v"
+    props_file = ["Props/C05.v", "Props/C05_Examples.v"]
     coq_imports = kc.COQ_IMPORTS
     n_quick = 700
     n_thorough = 16000
